@@ -61,7 +61,7 @@ Record op_case := OpCase {
 
 Definition model_step (k : op_case) :=
   cpc_step ostate o_native
-    (fun _ _ => (k_rewards k, k_total_zero k)) (fun s _ => s) (fun s _ => o_bal s)
+    (fun _ _ => (k_rewards k, k_total_zero k)) (fun s _ => o_bal s)
     (fun _ _ => k_delegated k) (fun _ => k_bonded k)
     0 (fun _ _ => 0) (fun _ _ => k_rec k)
     (OState (k_script k) (k_bal0 k)) (precompile_caller (k_sender k) (k_path k)) (k_call k).
@@ -75,11 +75,15 @@ Definition op_ok (k : op_case) : bool :=
   end.
 
 Record view_case := ViewCase {
-  w_view : view; w_deleg_tokens : Z; w_bonded_total : Z; w_reward : Z; w_rewards_total : Z; w_balance : Z; w_obs : Z }.
+  w_view : view; w_deleg_tokens : qres; w_bonded_total : qres; w_reward : qres; w_rewards_total : qres; w_balance : Z;
+  w_obs : option Z }.   (* None = the view call failed *)
+
+Definition optz_eqb (a b : option Z) : bool :=
+  match a, b with Some x, Some y => x =? y | None, None => true | _, _ => false end.
 
 Definition view_ok (w : view_case) : bool :=
-  view_step unit (fun _ _ => w_balance w) (fun _ _ _ => w_deleg_tokens w) (fun _ _ => w_bonded_total w)
-            (fun _ _ _ => w_reward w) (fun _ _ => w_rewards_total w) tt (w_view w) =? w_obs w.
+  optz_eqb (view_step unit (fun _ _ => w_balance w) (fun _ _ _ => w_deleg_tokens w) (fun _ _ => w_bonded_total w)
+                      (fun _ _ _ => w_reward w) (fun _ _ => w_rewards_total w) tt (w_view w)) (w_obs w).
 
 Inductive sk_case := KOp (k : op_case) | KView (w : view_case).
 
